@@ -695,6 +695,7 @@ def gen_commit_programs(r, n, big=0.05):
         ops.append(f"metadata s c0 {hx(key)}"); after = len(ops) - 1
         ops.append(f"metadata a c0 {hx(key)}")
         ops.append("list c0")
+        ops.append("dump c0/content-v2")          # judged by the content-validity monitor where it is registered
         ops.append("dump c0/tmp")
         ops.append(f"read s c0 {hx(key)}")
         progs.append(Program(f"commit{i}", ops, tags={
@@ -942,13 +943,17 @@ def ref_history(r, nrec, keys=None, same_bucket=True):
     """A history of records with explicit times, as (key str, integrity or None, time, size, metadata, raw)."""
     keys = keys or ["k"]
     recs = []
+    # time stamps are data, not order: position in the file decides what is current (clocks step back,
+    # callers pass explicit times, other writers use other clocks)
+    mono = r.chance(0.5)
     for j in range(nrec):
         k = r.pick(keys)
+        tmj = 1000 + j if mono else r.pick([5000 - j, r.randrange(0, 3000), 2**64 + j, 0])
         if r.chance(0.2):
-            recs.append((k, None, 1000 + j, 0, None, None))
+            recs.append((k, None, tmj, 0, None, None))
         else:
             d = bytes([j]) * r.pick([1, 3, 10])
-            recs.append((k, L.sri_of(r.pick(L.ALGOS), d), 1000 + j, len(d),
+            recs.append((k, L.sri_of(r.pick(L.ALGOS), d), tmj, len(d),
                          G.jvalue(r) if r.chance(0.5) else None, r.pick([None, b"\x00\xff", b"raw"])))
     return recs
 
@@ -1129,10 +1134,15 @@ def gen_layout_programs(r, n):
         frames = b"".join(rec_frame(x) for x in recs)
         d2 = b"reference content " + bytes([i % 256])
         algo2 = r.pick(L.ALGOS)
-        recs2 = recs + [(key2, L.sri_of(algo2, d2), 4242, len(d2), {"by": "reference", "z": [1, 2], "a": "\u00e9"}, None)]
+        recs2 = recs + [(key2, L.sri_of(algo2, d2), r.pick([4242, 1, 0, 2**70]), len(d2),
+                         {"by": "reference", "z": [1, 2], "a": "\u00e9"}, None)]
         # the reference writer does not have to spell JSON the way serde_json does
         style = r.pick(["canonical", "python", "unsorted", "reordered", "spaced"])
-        frames = b"".join(rec_frame(x) for x in recs2[:-1]) + L.frame(L.record_json_styled(*recs2[-1], style))
+        # ... and a shared cache may carry a line some other program left behind (torn inside a multi-byte
+        # character, plain junk): every reader of the format skips it
+        junk = r.pick([b"", b"", b"\nnot a record", b"\n\xe6\x97", b"\n" + rec_frame(recs[0])[1:40], b"\n\xff\xfe\tx"])
+        frames = (b"".join(rec_frame(x) for x in recs2[:-1]) + junk +
+                  L.frame(L.record_json_styled(*recs2[-1], style)))
         ops.append(f"put c1/{L.bucket_rel(key2.encode())} {hx(frames)}")
         ops.append(f"put c1/{L.content_rel(L.sri_of(algo2, d2))} {hx(d2)}")
         ref_at = len(ops)
@@ -1222,7 +1232,16 @@ def gen_linkto_programs(r, n):
         fl = r.pick("sa")
         ops = [f"put tgt/{name} {hx(d)}"]
         tags = {"data": d, "key": key, "form": form}
-        mode = r.pick(["oneshot", "oneshot_hash", "partial", "opts_bad_size", "opts_bad_sri", "preexisting", "partial_cd"])
+        mode = r.pick(["oneshot", "oneshot_hash", "partial", "opts_bad_size", "opts_bad_sri", "preexisting", "partial_cd",
+                       "opts_small_size", "relink"])
+        if mode == "opts_small_size" and len(d) == 0:
+            mode = "opts_bad_size"
+        if mode == "relink":
+            # the same bytes were linked before from a file that is gone now: the address holds a dangling
+            # link.  Whatever the second link answers, an ok must mean the key reads back
+            ops.append(f"put tgt/gone{i} {hx(d)}")
+            ops.append(f"link_to {r.pick('sa')} c0 {hx(b'first-' + key[:8])} abs:tgt/gone{i}")
+            ops.append(f"del tgt/gone{i}")
         if mode == "partial_cd":
             # the handle is opened (cache given as an absolute path), then the process' working directory
             # changes before the commit: a relative target still means the file named at open time
@@ -1254,6 +1273,17 @@ def gen_linkto_programs(r, n):
             kk = hx(key) if r.chance(0.6) else "-"
             ops.append(f"lopen {fl} c0 {l} {kk} {tgt} algo=sha256 size={len(d) + 1} sri=-")
             ops.append(f"lcommit {l}")
+        elif mode == "opts_small_size":
+            # a declared size SMALLER than the target, and exactly that many bytes read through the handle
+            l = ids.new("L")
+            kk = hx(key) if r.chance(0.6) else "-"
+            n_decl = r.randrange(0, len(d))
+            ops.append(f"lopen {fl} c0 {l} {kk} {tgt} algo=sha256 size={n_decl} sri=-")
+            if n_decl > 0 and r.chance(0.8):
+                ops.append(f"lread {l} {n_decl}")
+            ops.append(f"lcommit {l}")
+        elif mode == "relink":
+            ops.append(f"link_to {fl} c0 {hx(key)} {tgt}")
         elif mode == "opts_bad_sri":
             l = ids.new("L")
             kk = hx(key) if r.chance(0.6) else "-"
@@ -1293,8 +1323,10 @@ def mon_linkto(rr):
     res = toks(rr.impl[li])
     sig = {"form": t["form"], "mode": t["mode"], "op": rr.prog.ops[li].split(" ")[0]}
     keyed = t["mode"] != "oneshot_hash"
-    if t["mode"] in ("opts_bad_size", "opts_bad_sri"):
-        want = ["err", "size"] if t["mode"] == "opts_bad_size" else ["err", "integrity"]
+    if t["mode"] == "relink" and res[0] != "ok":
+        return out            # refusing to link over a dangling link is the pinned behaviour; an ok must be truthful
+    if t["mode"] in ("opts_bad_size", "opts_bad_sri", "opts_small_size"):
+        want = ["err", "integrity"] if t["mode"] == "opts_bad_sri" else ["err", "size"]
         if res[:2] != want:
             out.append(Failure("link_opts_not_enforced", li, f"link with wrong declaration -> {' '.join(res[:3])}", sig=sig))
         m = meta_of_line(rr.impl[t["obs"] + 2])
